@@ -72,8 +72,20 @@ def r2_1(ctx):
               f"Text.divide: {why}: the pieces are not the consecutive slices of the plain text between the given offsets (characters can be lost, repeated or reordered when wrapping)")
     ok = norm(inline(sl.value, defs)) in PLAIN and sl.slice.lower is not None and sl.slice.upper is not None and norm(sl.slice.lower) == tv[0] and norm(sl.slice.upper) == tv[1] and sl.slice.step is None and not gen.ifs
     ctx.check(ok, f.fq, short(found), f.where, "one piece per range, holding exactly that slice of the plain text", "the new lines are not built as plain[start:end] for every range in order")
-    # span clipping is relative to the piece start
-    line_loops = [x for x in walk_local(f.node) if isinstance(x, ast.For) and any(norm(inline(n, defs)) == norm(inline(gen.iter, defs)) for n in ast.walk(x.iter) if isinstance(n, ast.Name))]
+    # span clipping is relative to the piece start (in divide itself or in the helper it hands the ranges to)
+    from .c05 import _divide_spans_fn
+    sf = _divide_spans_fn(ctx)
+    if sf is f:
+        line_loops = [x for x in walk_local(f.node) if isinstance(x, ast.For) and any(norm(inline(n, defs)) == norm(inline(gen.iter, defs)) for n in ast.walk(x.iter) if isinstance(n, ast.Name))]
+    else:
+        # the helper receives the ranges as an argument: find the parameter bound to them
+        rng_params = set()
+        for c in walk_local(f.node):
+            if isinstance(c, ast.Call) and isinstance(c.func, ast.Attribute) and c.func.attr == sf.name:
+                for i, a in enumerate(c.args):
+                    if norm(inline(a, defs)) == norm(inline(gen.iter, defs)) and i + 1 < len(sf.params):
+                        rng_params.add(sf.params[i + 1])
+        line_loops = [x for x in walk_local(sf.node) if isinstance(x, ast.For) and any(isinstance(n, ast.Name) and n.id in rng_params for n in ast.walk(x.iter))]
     ok = False
     detail = "?"
     for lp in line_loops:
@@ -82,12 +94,22 @@ def r2_1(ctx):
         for x in ast.walk(lp):
             if isinstance(x, ast.Assign) and isinstance(x.targets[0], ast.Tuple) and len(x.targets[0].elts) == 3 and isinstance(x.value, ast.Name):
                 um = {e.id: i for i, e in enumerate(x.targets[0].elts) if isinstance(e, ast.Name)}
+        # the clipped part of the span: first name unpacked from `<span>.split(<line end>)`
+        parts = [norm(x.targets[0].elts[0]) for x in ast.walk(lp) if isinstance(x, ast.Assign) and isinstance(x.targets[0], ast.Tuple) and len(x.targets[0].elts) == 2 and isinstance(x.value, ast.Call) and isinstance(x.value.func, ast.Attribute) and x.value.func.attr == "split"]
+
+        def field(e):
+            """0/1/2 if e is the start/end/style of the clipped part (unpacked name or attribute access)"""
+            if norm(e) in um:
+                return um[norm(e)]
+            if isinstance(e, ast.Attribute) and norm(e.value) in parts and e.attr in ("start", "end", "style"):
+                return ("start", "end", "style").index(e.attr)
+            return None
         for c in ast.walk(lp):
-            if isinstance(c, ast.Call) and norm(expand_alias(c.func, alias_map(f.node))) in ("Span", "_Span") and len(c.args) == 3:
+            if isinstance(c, ast.Call) and norm(expand_alias(c.func, alias_map(sf.node))) in ("Span", "_Span") and len(c.args) == 3:
                 a0, a1, a2 = c.args
                 detail = short(c)
                 if (isinstance(a0, ast.BinOp) and isinstance(a0.op, ast.Sub) and isinstance(a1, ast.BinOp) and isinstance(a1.op, ast.Sub) and starts and norm(a0.right) == starts[-1] and norm(a1.right) == starts[-1]
-                        and um.get(norm(a0.left)) == 0 and um.get(norm(a1.left)) == 1 and um.get(norm(a2)) == 2):
+                        and field(a0.left) == 0 and field(a1.left) == 1 and field(a2) == 2):
                     ok = True
     ctx.check(ok, f.fq, detail, f.where, "clipped spans are re-based to the start of their line", "clipped spans are not shifted by the start offset of their line: styles land on the wrong characters after wrapping")
     sp = ctx.repo.fn("text:Span.split")
